@@ -1,4 +1,5 @@
 import GoLevel.Proofs.LSMLookup
+import GoLevel.Proofs.LSMSourcesB
 /-!
 # Property C01 — every Get returns what a plain map would
 
@@ -141,6 +142,30 @@ structure SourcesOK (c : UCmp) (auxm : Option (List Entry)) (aux : Level) (mem :
   /-- aux tables newer than the version -/
   ord4 : newerThanB c (Level.entries aux) v.entries = true
 
+/-- the Boolean checker run by the trace validator on every dumped state of the real DB (`lsm state`) implies
+the hypotheses of `dbGet_spec` / `lookup_refines_view` for a DB without auxiliary sources -/
+theorem sourcesOKB_sound {c : UCmp} {mem : List Entry} {frozen : Option (List Entry)} {v : Version}
+    (h : sourcesOKB c mem frozen v = true) : SourcesOK c none [] mem frozen v := by
+  simp only [sourcesOKB, Bool.and_eq_true, decide_eq_true_eq] at h
+  obtain ⟨⟨⟨⟨⟨⟨⟨h1, h2⟩, h3⟩, h4⟩, h5⟩, h6⟩, h7⟩, h8⟩ := h
+  exact
+    { auxm_sorted := by simp [sortedB]
+      auxm_kinds := by intro e he; simp at he
+      mem_sorted := h1
+      mem_kinds := h2
+      frozen_sorted := h3
+      frozen_kinds := h4
+      aux_wf := by intro t ht; simp at ht
+      aux_uniq := by intro a ha; simp [Level.entries] at ha
+      wf := h5
+      l0_uniq := h6
+      ord1 := by simp [newerThanB]
+      ord2 := by simpa [Level.entries] using h7
+      ord3 := by simpa [Level.entries] using h8
+      ord4 := by simp [newerThanB, Level.entries] }
+
+example : sourcesOKB bytewise exMem none exV = true := by decide
+
 /-- **`lookup_refines_view`** (`DB.get`): the lookup over aux memdb, write buffer, frozen buffer, aux
 tables and the version returns what the plain map over all their entries returns. -/
 theorem dbGet_spec {c : UCmp} (hl : LawfulUCmp c) (auxm : Option (List Entry)) (aux : Level)
@@ -192,4 +217,4 @@ end GoLevel.C01
 def GoLevel.C01.theorems : List String :=
   ["GoLevel.C01.memGet_spec", "GoLevel.C01.l0Get_spec", "GoLevel.C01.levelGet_spec",
    "GoLevel.C01.versionGet_spec", "GoLevel.C01.dbGet_spec", "GoLevel.C01.lookup_refines_view",
-   "GoLevel.C01.has_iff_get"]
+   "GoLevel.C01.has_iff_get", "GoLevel.C01.sourcesOKB_sound"]
